@@ -76,6 +76,8 @@ func ClassifyGenErr(msg string) string {
 		return "enumErrorNotAllowed"
 	case has("goverter:autoMap") && has("does not exist"):
 		return "autoMapNotFound"
+	case has("Error parsing struct method"):
+		return "structMethodSig"
 	case has("Cannot use different packages"):
 		return "differentPackages"
 	case has("while formatting source"):
